@@ -2,7 +2,8 @@
 set -eu
 export GOFLAGS=-mod=mod GOPROXY=off GOSUMDB=off GOTOOLCHAIN=local
 V="${VERIF_DIR:-/verif}"
+R="${VERIF_REPO:-/repo}"
 mkdir -p "$V/.build"
 # the real command-line binary (uninstrumented) for the cli units
-(cd /repo && go build -o "$V/.build/gedcom-bin-c11" ./cmd/gedcom)
+(cd "$R" && go build -o "$V/.build/gedcom-bin-c11" ./cmd/gedcom)
 exec "$(dirname "$0")/../../e1/build.sh" c11 "$1"
